@@ -107,11 +107,18 @@ static char* read_table(const char* path, const uint8_t* fb, size_t fn, int mode
 }
 
 static long n_files, n_unsup;
+/* 0: `refread` (C06: what was read == what the file holds); 1: `refmodes` (C03: the three I/O modes and all batch sizes read
+ * the same from a SUPPORTED reference file); 2: `refsafe` (C04: no crash / sanitizer report / hang on any reference file,
+ * supported, unsupported or damaged).  The variants run the same reads and carry only their own predicate. */
+static int g_ref_kind;
 
 static void run_ref(hctx* h, const h_line* l) {
     static const long sizes[] = { 0, 1, 3, 7 };
-    fprintf(h->out, "refread");
-    for (int i = 0; i < l->n_in; i++) fprintf(h->out, " %s=%s", l->in[i].key, l->in[i].val);
+    fprintf(h->out, g_ref_kind == 1 ? "refmodes" : g_ref_kind == 2 ? "refsafe" : "refread");
+    for (int i = 0; i < l->n_in; i++) {
+        if (g_ref_kind && (!strcmp(l->in[i].key, "expect") || !strcmp(l->in[i].key, "hyp") || !strcmp(l->in[i].key, "hypexp") || !strcmp(l->in[i].key, "selfcheck"))) continue;
+        fprintf(h->out, " %s=%s", l->in[i].key, l->in[i].val);
+    }
     h_call(h);
     rcol cols[64]; int ncols = 0;
     const char* cs = h_in(l, "cols");
@@ -129,14 +136,16 @@ static void run_ref(hctx* h, const h_line* l) {
     if (!f || fwrite(fb, 1, fn, f) != fn) { fprintf(h->out, " | err=tmpfile\n"); if (f) fclose(f); free(fb); return; }
     fclose(f);
     fprintf(h->out, " |");
-    char* first = NULL;
+    char* first = NULL; int all_same = 1;
     for (int mode = 0; mode < 3; mode++)
         for (int b = 0; b < 4; b++) {
             char* t = read_table(path, fb, fn, mode, sizes[b], cols, ncols, nrg);
-            if (!first) { first = t; fprintf(h->out, " g%d_%ld=%s", mode, sizes[b], t); }
-            else { fprintf(h->out, " g%d_%ld=%s", mode, sizes[b], strcmp(t, first) == 0 ? "same" : t); free(t); }
+            if (!first) { first = t; fprintf(h->out, " g%d_%ld=%s", mode, sizes[b], g_ref_kind ? "first" : t); }
+            else { if (strcmp(t, first) != 0) all_same = 0; fprintf(h->out, " g%d_%ld=%s", mode, sizes[b], strcmp(t, first) == 0 ? "same" : t); free(t); }
         }
     free(first);
+    if (g_ref_kind == 1) fprintf(h->out, " p_modes_agree=%d", all_same);
+    if (g_ref_kind == 2) fprintf(h->out, " p_safe=1");
     fputc('\n', h->out);
     h->n_lines++; n_files++;
     if (h_ll(h_in(l, "unsupported"))) n_unsup++;
@@ -153,6 +162,7 @@ static void gen_refread(hctx* h) {
         h_line l;
         if (h_parse_line(line, &l)) { fprintf(stderr, "refread: bad input line\n"); exit(2); }
         if (strcmp(l.op, "refread") != 0) { h_free_line(&l); continue; }   /* e.g. `refmut` base files for another component */
+        if (g_ref_kind == 1 && h_ll(h_in(&l, "unsupported"))) { h_free_line(&l); continue; }
         run_ref(h, &l);
         h_free_line(&l);
     }
@@ -166,3 +176,13 @@ static int replay_refread(hctx* h, const h_line* l) {
 }
 
 const h_component comp_refread = { "refread", gen_refread, replay_refread };
+
+static void gen_refmodes(hctx* h) { g_ref_kind = 1; gen_refread(h); g_ref_kind = 0; }
+static void gen_refsafe(hctx* h) { g_ref_kind = 2; gen_refread(h); g_ref_kind = 0; }
+static int replay_refvar(hctx* h, const h_line* l) {
+    int k = !strcmp(l->op, "refmodes") ? 1 : !strcmp(l->op, "refsafe") ? 2 : 0;
+    if (!k) return 0;
+    g_ref_kind = k; run_ref(h, l); g_ref_kind = 0; return 1;
+}
+const h_component comp_refmodes = { "refmodes", gen_refmodes, replay_refvar };
+const h_component comp_refsafe = { "refsafe", gen_refsafe, replay_refvar };
